@@ -28,9 +28,26 @@ EXHAUSTIVE_DOMAINS = {'quick': ['every public function of numqi.random x every l
 ASSUMPTIONS = ['only integer seeds are claimed reproducible (Generator objects advance by design)',
                'admissible arguments only: rand_kraus_op needs num_term*dim_out>=dim_in, rand_choi_op rank*dim_out>=dim_in',
                'distributional correctness (Haar/Bures measure) is not claimed and not checked']
-DECIDING = ['reproducible/pair', 'interpose/seeded-call-in-flight']
+DECIDING = ['reproducible/pair', 'interpose/seeded-call-in-flight', 'api/positional']
 
 TOL = 1e-9
+
+
+# the documented parameter order of the public generators (docstring "Parameters:" order; for the undocumented ones the order of the
+# shipped API): the specification against which positional calls are made
+API_ORDER = {
+    'rand_haar_state': ['dim', 'tag_complex', 'seed'], 'rand_haar_unitary': ['dim', 'seed'],
+    'rand_special_orthogonal_matrix': ['dim', 'batch_size', 'tag_complex', 'seed'], 'rand_density_matrix': ['dim', 'k', 'kind', 'seed'],
+    'rand_kraus_op': ['num_term', 'dim_in', 'dim_out', 'tag_complex', 'seed'], 'rand_choi_op': ['dim_in', 'dim_out', 'rank', 'seed'],
+    'rand_povm': ['dim', 'num_term', 'seed'], 'rand_bipartite_state': ['dimA', 'dimB', 'k', 'seed', 'return_dm'],
+    'rand_separable_dm': ['dimA', 'dimB', 'k', 'seed', 'pure_term'], 'rand_hermitian_matrix': ['d', 'eig', 'tag_complex', 'seed'],
+    'rand_channel_matrix_space': ['dim_in', 'num_term', 'seed'], 'rand_quantum_channel_matrix_subspace': ['dim_in', 'num_hermite', 'seed'],
+    'rand_ABk_density_matrix': ['dimA', 'dimB', 'kext', 'seed'], 'rand_reducible_matrix_subspace': ['num_matrix', 'partition', 'return_unitary', 'seed'],
+    'rand_symmetric_inner_product': ['N0', 'zero_eps', 'seed'],
+    'rand_orthonormal_matrix_basis': ['num_orthonormal', 'dim_qudit', 'num_qudit', 'num_sample', 'with_I', 'seed'],
+    'rand_adjacent_matrix': ['dim', 'seed'], 'rand_n_sphere': ['dim', 'size', 'seed'], 'rand_n_ball': ['dim', 'size', 'seed'],
+    'rand_SpF2': ['n', 'return_kind', 'seed'], 'rand_Clifford_group': ['n', 'seed'], 'rand_pauli': ['n', 'is_hermitian', 'seed'],
+}
 
 
 def shards(tier, seed):
@@ -491,6 +508,29 @@ def pair(ctx, numqi, name, f, args, kwargs, seed):
                  if rng.random() < 0.01 else None)
         ctx.check(same(r1, r2), f'reproducible/not-bit-identical/{name}', f'{name}(..., seed=s) called twice with other random calls in between gave different results',
                   {'args': args, 'kwargs': kwargs, 'seed': seed, 'interleaved': ops}, point='reproducible/pair')
+        # API surface: the same call with every argument passed POSITIONALLY in the documented order (seed included)
+        order = API_ORDER.get(name)
+        if order is not None:
+            import inspect
+            sig = inspect.signature(ctx.orig(f))
+            defaults = {k: v.default for k, v in sig.parameters.items() if v.default is not inspect.Parameter.empty}
+            pos = list(args)
+            okp = True
+            for pname in order[len(args):]:
+                if pname == 'seed':
+                    pos.append(seed)
+                elif pname in kwargs:
+                    pos.append(kwargs[pname])
+                elif pname in defaults:
+                    pos.append(defaults[pname])
+                else:
+                    okp = False
+                    break
+            if okp and not name == 'rand_F2':
+                r3 = f(*pos)
+                ctx.check(same(r3, r2), f'api/positional-call-differs-from-keyword-call/{name}',
+                          f'{name} called positionally in its documented parameter order gives a different result than the keyword call with the same seed',
+                          {'documented_order': order, 'positional_args': [repr(x)[:40] for x in pos]}, point='api/positional')
         # a Generator object is also accepted wherever an int is (validity only)
         if name not in ('rand_SpF2', 'rand_Clifford_group'):
             f(*args, **kwargs, seed=np.random.default_rng(seed))
